@@ -80,7 +80,7 @@ SOURCES = {
     "C16": STORE,
     "C17": RPC + ["src/node/node.go:Node.checkSuspend", "src/node/node.go:Node.Suspend"],
     "C18": [HG + "GetFrame", "src/common/median.go:*", "src/hashgraph/block.go:NewBlockFromFrame"],
-    "C19": ["src/peers/peer_set.go:PeerSet.SuperMajority", "src/peers/peer_set.go:PeerSet.TrustCount", HG + "CheckBlock", HG + "SetAnchorBlock",
+    "C19": ["src/peers/peer_set.go:PeerSet.SuperMajority", "src/peers/peer_set.go:PeerSet.TrustCount", HG + "CheckBlock", HG + "SetAnchorBlock", HG + "ProcessSigPool",
             "src/hashgraph/roundInfo.go:RoundInfo.WitnessesDecided", HG + "_stronglySee", HG + "_round"],
     "C20": PROXY,
 }
